@@ -1152,9 +1152,29 @@ func (x *executor) ctxOp(c *types.Context, t []string) string {
 		delete(x.ctxs, id)
 		return "ok"
 	case t[0] == "ctx-dump" && len(t) == 2:
+		// Range, with a second Range started inside the callback (two iterations alive at once on one Params value): the
+		// outer one still visits every parameter exactly once, the inner one sees all of them every time
 		m := map[string]string{}
-		c.Range(func(k, v string) { m[k] = v })
-		return fmt.Sprintf("dump count=%d range=%s", c.Count(), encMap(m))
+		visits := map[string]int{}
+		nested := "ok"
+		c.Range(func(k, v string) {
+			m[k] = v
+			visits[k]++
+			n := 0
+			c.Range(func(string, string) { n++ })
+			if n != c.Count() {
+				nested = "inner-saw-" + strconv.Itoa(n)
+			}
+		})
+		if len(visits) != c.Count() {
+			nested = "outer-visited-" + strconv.Itoa(len(visits)) + "-keys"
+		}
+		for _, n := range visits {
+			if n != 1 {
+				nested = "outer-visited-a-key-" + strconv.Itoa(n) + "-times"
+			}
+		}
+		return fmt.Sprintf("dump count=%d range=%s nested=%s", c.Count(), encMap(m), nested)
 	case t[0] == "ctx-acc" && len(t) == 8:
 		key := decB(t[2])
 		di, _ := strconv.ParseInt(t[4], 10, 64)
